@@ -68,8 +68,10 @@ func c10Gen(c *vfCtx, emit func(c10Case)) {
 		if !c.thorough() && (len(sub) == 4 && si%32 != 0 || len(sub) == 3 && si%3 != 0) {
 			continue
 		}
-		if c.thorough() && (len(sub) == 5 && si%120 != 0 || len(sub) == 4 && si%6 != 0) {
-			continue // measured: all 4- and 5-subsets with every permutation do not finish within the deadline
+		if c.thorough() && (len(sub) == 5 && si%360 != 0 || len(sub) == 4 && si%10 != 0) {
+			// measured: all 4- and 5-subsets with every permutation do not finish within the deadline; after the extra files, the
+			// 70 KB bodies and the CR LF initial orders came in, every 120th / 6th did not either (1933 s, deadline) -> every 360th / 10th
+			continue
 		}
 		var ids []string
 		names := map[string]int{} // test name -> max ordinal present
